@@ -244,6 +244,8 @@ pub struct MonState {
     pub probes: Probes,
     pub steps: usize,
     pub budget: usize,
+    /// positions of the tokens `predicate_skip` answered true for in this run
+    pub dyn_skipped: std::collections::BTreeSet<usize>,
 }
 
 pub struct SimInner {
@@ -298,6 +300,7 @@ impl Sim {
                 probes: Probes::default(),
                 steps: 0,
                 budget,
+                dyn_skipped: Default::default(),
             }),
         }))
     }
@@ -696,6 +699,13 @@ pub fn on_diag(v: &dyn PView, span: Span, msg: String) -> Diag {
     let sim = v.sim().clone();
     on_event(v, 5, CB_DIAG, 0, 0);
     sim.0.st.borrow_mut().probes.diags += 1;
+    // C08.6: inside an attempt that can still be undone a mismatch ends the attempt, it is never reported:
+    // a diagnostic created while the choice mode is active means the code at this point cannot backtrack
+    if v.in_ordered_choice() {
+        let lpos = sim.lpos_at(v.pos());
+        let mut st = sim.0.st.borrow_mut();
+        viol(&mut st, "C08.mismatch_reported_inside_undoable_attempt", format!("create_diagnostic({msg:?}) at logical position {lpos} while an ordered-choice attempt could still be undone (the code here reports instead of abandoning the alternative)"));
+    }
     Diag { span, msg, origin: 0 }
 }
 
@@ -709,6 +719,7 @@ pub fn on_skip(v: &dyn PView, tok: u16) -> bool {
         let mut st = sim.0.st.borrow_mut();
         st.probes.dyn_skips += 1;
         st.steps += 1;
+        st.dyn_skipped.insert(v.pos());
     }
     r
 }
@@ -740,9 +751,11 @@ pub fn finish(sim: &Sim, cst: &dyn CView, diags: Vec<Diag>) -> RunOut {
     let mut leaves: Vec<(u16, Span)> = vec![];
     let mut norm_tree: Vec<i64> = vec![];
     let mut shape_viols: Vec<(&'static str, String)> = vec![];
+    let dyn_skipped = st.dyn_skipped.clone();
     fn walk(
         cst: &dyn CView,
         meta: &Meta,
+        dyn_skipped: &std::collections::BTreeSet<usize>,
         lpos: &[u32],
         n: usize,
         depth: usize,
@@ -799,15 +812,17 @@ pub fn finish(sim: &Sim, cst: &dyn CView, diags: Vec<Diag>) -> RunOut {
                 // no rule node other than the root starts or ends with a skipped token (direct children)
                 if n != 0 && !kids.is_empty() {
                     for (what, c) in [("starts", kids[0]), ("ends", *kids.last().unwrap())] {
-                        if let NodeV::Token(t, _) = cst.get(c) {
+                        if let NodeV::Token(t, ti) = cst.get(c) {
                             if meta.is_static_skip(t) {
                                 shape.push(("C02.rule_node_starts_or_ends_with_skipped_token", format!("rule node {n} ({}) {what} with skipped token {}", meta.rule_names[k as usize], meta.token_names[t as usize])));
+                            } else if dyn_skipped.contains(&ti) && meta.rule_names[k as usize] != "error" {
+                                shape.push(("C02.rule_node_starts_or_ends_with_skipped_token", format!("rule node {n} ({}) {what} with token {} at input position {ti}, which predicate_skip skipped", meta.rule_names[k as usize], meta.token_names[t as usize])));
                             }
                         }
                     }
                 }
                 for c in kids {
-                    walk(cst, meta, lpos, c, depth + 1, leaves, norm, shape, nodes_len);
+                    walk(cst, meta, dyn_skipped, lpos, c, depth + 1, leaves, norm, shape, nodes_len);
                 }
                 norm.push(-1);
             }
@@ -816,7 +831,7 @@ pub fn finish(sim: &Sim, cst: &dyn CView, diags: Vec<Diag>) -> RunOut {
     if nodes.is_empty() {
         viol(&mut st, "C01.empty_tree", "the returned tree has no nodes".into());
     } else {
-        walk(cst, meta, &inner.lpos, 0, 0, &mut leaves, &mut norm_tree, &mut shape_viols, nodes.len());
+        walk(cst, meta, &dyn_skipped, &inner.lpos, 0, 0, &mut leaves, &mut norm_tree, &mut shape_viols, nodes.len());
         if let NodeV::Rule(_, off) = nodes[0] {
             if off + 1 != nodes.len() {
                 shape_viols.push(("C02.root_does_not_cover_tree", format!("root extent {} but {} nodes", off, nodes.len())));
